@@ -34,7 +34,14 @@ def obligations(ctx, data):
         else: failed.add("<preamble>")
     if not ok and not failed:
         failed.add("<file>")
-    names = [n for n, _, _ in st.OBLIGATIONS] + ["atomic_actual", "shape_actual", "validation_actual"]
+    names = [where[k] for k in sorted(where)]
+    # a theorem that uses a failed one is not discharged either (Lean keeps elaborating after an error)
+    changed = True
+    while changed:
+        changed = False
+        for k in sorted(where):
+            if where[k] not in failed and any(re.search(r"\b%s\b" % re.escape(f), lines[k - 1].split(":=", 1)[-1]) for f in failed):
+                failed.add(where[k]); changed = True
     for n in names:
         ctx.obligation(n not in failed)
     return failed, out
@@ -445,8 +452,10 @@ def run(ctx):
 
     # ---- failing obligations -> failing inputs
     for name in sorted(failed):
-        if name in ("languages_documented", "validation_actual"):
+        if name in ("languages_documented", "validation_actual", "hyp_languages"):
             continue   # handled by language_findings
+        if name.startswith("hyp_") or name.endswith("_actual"):
+            continue   # consequences of the named obligations above
         replay = {"obligation": name, "lean_output": out[-1500:]}
         if name == "no_duplicate_keys" and dup:
             for n, k in dup:
